@@ -14,8 +14,9 @@ RULE = ('stall/drain episodes (pause_writing / resume_writing, also resume+pause
         'subscribers, interleaved with publishes, other traffic, Lost/EOF, in virtual time (1 s ticks: 1, 30, 59, 60, 61); '
         'non-trivial = at least one stall episode and one PUBLISH delivered; compared with the Coq model on aspects %s; oracle: the '
         'harness\'s own clock says when each stalled transport must be closed (start + 60 s, not earlier, not if drained) and '
-        'that it is sent OP_ERROR; plus a sub-second probe of the real Connection')
+        'that it is sent OP_ERROR; frame-normalised histories are also judged by harness/judge.py (every publish reaches every other entitled subscriber exactly once while connections are stalled or have been dropped); plus a sub-second probe of the real Connection')
 PLAN = [(120, 3000, dict(profile='benign', nconn=3, nops=6), False),
+        (50, 1200, dict(profile='benign', nconn=4, nops=8, chunking='frames'), True),
         (60, 1500, dict(profile='mixed', faults=0.02), False)]
 
 
@@ -139,7 +140,7 @@ def run(ctx, res):
             rng = ctx.rng('C15/%d/%d' % (pi, k))
             case, scripts = broker.gen_history(rng, **kw)
             case = with_stalls(rng, case)
-            B.add_case(ctx, res, 'C15', cases, case, False, extra_oracle=deadline_oracle)
+            B.add_case(ctx, res, 'C15', cases, case, use_judge, extra_oracle=deadline_oracle)
     B.finish(ctx, res, 'C15', ASPECTS, cases)
 
 
